@@ -115,6 +115,13 @@ def model_inst(schema, inst, miss=None):
             else:
                 t = "LNULL"
             ws.append(f"{a.base}:{1 if a.optional else 0}:{1 if a.derived else 0}:{1 if a.type_ref else 0}:{1 if a.redef_name else 0}:{t}")
+        if not inst.is_complex:
+            # the C++ attribute list: inherited positions, one redefining attribute per redeclaration, the entity's own attributes
+            ent = schema.by_name[inst.parts[pi][0].lower()]
+            n_red = sum(1 for a in G.part_attrs(schema, inst, pi) if a.redef_name)
+            if n_red:
+                k = len(ws) - len(ent.attrs)
+                ws = ws[:k] + ["RD"] * n_red + ws[k:]
         parts.append(" ".join(ws))
     return ("X " + " ; ".join(parts)) if inst.is_complex else ("S " + parts[0])
 
@@ -255,8 +262,6 @@ def oracle(base, optional, strict, obs, idx, exit_thr, value, dollar=True):
 # classes recorded in KNOWN_FINDINGS.txt (repairs C15-3 / C15-4 were rejected by the shipped 258-test suite)
 K_NONHEAD = "complex:nonhead-part-error-dropped"
 K_ESCALATED = "complex:usermsg-escalated"
-K_REDECL = "redeclared:error-dropped"
-K_TRAILING = "redeclared:absent-trailing-value-unnoticed"
 
 
 def known_class(info, obs, idx, value):
@@ -264,13 +269,6 @@ def known_class(info, obs, idx, value):
     if info["optional"]:
         return None
     st = obs["states"][idx] if idx < len(obs["states"]) else "absent"
-    if (info.get("trailing_after_redefining") and not info["dollar"] and obs["sev"] == "NULL" and st == "completeSE"):
-        # SDAI_Application_instance::STEPread: the redefining attributes that precede the entity's own ones swallow the `)`,
-        # and the look-ahead loop that should report the missing values steps over every other attribute (`i++` twice)
-        return K_TRAILING
-    if info.get("redeclared") and obs["sev"] == "NULL" and st == "completeSE":
-        # STEPattribute::STEPread forwards to the redefining attribute and the instance never sees that attribute's error
-        return K_REDECL
     if info["shape"] == "complex-part" and obs["sev"] == "NULL" and st == "completeSE":
         # STEPcomplex::STEPread drops what every part but the first reports: the instance reads clean
         return K_NONHEAD
@@ -389,8 +387,6 @@ def run_schema(ctx, b, schema, pop, workdir, exe, p21read, model_exe, exit_thr, 
                 if kc is None:
                     continue
                 ctx.hist("recorded defect class hit", kc)
-                if kc == K_TRAILING:
-                    continue      # the interleaving of redefining attributes in the instance's read loop is not modelled
                 # a recorded defect: the model follows the code, so the correspondence below is still demanded
             # the real p21read on a sample: one file per class
             subst_class = (not a.optional and not strict and dollar and a.base in SUBST)
@@ -404,7 +400,8 @@ def run_schema(ctx, b, schema, pop, workdir, exe, p21read, model_exe, exit_thr, 
                 if r.returncode != want:
                     problems["property"].append((info, f"p21read{' -s' if strict else ''} exits {r.returncode}, the severity rule gives {want} ({obs['sev']})"))
                     continue
-                if r.returncode == 0 and not e and not a.optional and not strict and dollar and a.base in SUBST:
+                if r.returncode == 0 and not e and not a.optional and not strict and dollar and a.base in SUBST and not a.redef_name:
+                    # (at a redeclared position the writer prints `*`; the substituted value was checked in memory above)
                     try:
                         _, _, wr = G.parse_p21(open(outp).read())
                         w = [i for _, i in wr if i.id == m[idx].id][0]
@@ -414,8 +411,6 @@ def run_schema(ctx, b, schema, pop, workdir, exe, p21read, model_exe, exit_thr, 
                     if wv[0] != "tok" or not G.tok_equal(wv[1], SUBST[a.base]):
                         problems["property"].append((info, f"p21read wrote {wv!r} for the substituted {a.base}, expected {SUBST[a.base]}"))
                         continue
-            if info["trailing_after_redefining"] and not dollar:
-                continue      # (see K_TRAILING) the read loop's handling of redefining attributes is not modelled
             # correspondence with the model
             mm = decode_model(mout[2 + k])
             if mm is None:
